@@ -3,6 +3,7 @@ import Pyvsc.Model.Values
 import Pyvsc.Spec.Values
 import Pyvsc.Model.Bins
 import Pyvsc.Spec.Bins
+import Pyvsc.Model.Covergroup
 /-!
 # pvdrv — line-protocol driver for the executable model
 
@@ -256,6 +257,78 @@ def handleSpec (op : String) (j : Json) : Except String Json := do
   | "s.agrees" => pure <| Json.bool (agrees (← getN j "value") (← getN j "mask") (← getN j "v"))
   | _ => throw s!"unknown op {op}"
 
+open Pyvsc Pyvsc.Bins Pyvsc.Cg in
+def asShape (j : Json) : Except String (Option Shape) := do
+  let cpsJ ← getA j "cps"
+  let cps ← cpsJ.toList.mapM (fun c => do
+    match ← buildCp c with
+    | none => pure none
+    | some cp => pure (some ({ name := (← getS c "name"), cp := cp, atLeast := (← getN c "at_least"), weight := (← getN c "weight") } : CpDef)))
+  let crosses ← (← getA j "crosses").toList.mapM (fun c => do
+    let idx ← (← getA c "cps").toList.mapM (fun x => x.getNat?)
+    pure ({ name := (← getS c "name"), cps := idx, atLeast := (← getN c "at_least"), weight := (← getN c "weight") } : CrossDef))
+  if cps.all Option.isSome then pure (some { cps := cps.filterMap id, crosses := crosses }) else pure none
+
+def jNats (l : List Nat) : Json := Json.arr (l.map jNat).toArray
+
+open Pyvsc Pyvsc.Bins Pyvsc.Cg in
+def jCgState (sh : Shape) (s : St) : Json :=
+  Json.mkObj [
+    ("cp", Json.arr ((sh.cps.zip s.cp).map (fun (d, h) => Json.mkObj [
+      ("name", Json.str d.name), ("hits", jNats h.hit), ("ign", jNats h.ign), ("ill", jNats h.ill),
+      ("names", jNames d.cp.bins),
+      ("cov", Json.arr #[jNat (cpCov d h).1, jNat (cpCov d h).2])])).toArray),
+    ("cross", Json.arr ((sh.crosses.zip s.cross).map (fun (c, h) => Json.mkObj [
+      ("name", Json.str c.name), ("hits", jNats h),
+      ("names", Json.arr ((List.range h.length).map (fun i => Json.str (crossBinName sh c i))).toArray),
+      ("cov", Json.arr #[jNat (crossCov c h).1, jNat (crossCov c h).2])])).toArray),
+    ("items", Json.arr ((cgItems sh s).map (fun (k, n, w) => Json.arr #[jNat k, jNat n, jNat w])).toArray)]
+
+open Pyvsc Pyvsc.Cg in
+def jUCg (c : UCg) : Json :=
+  let jb (b : UBin) := Json.arr #[Json.str b.name, jNat b.atLeast, jNat b.count, Json.str b.kind]
+  Json.mkObj [("name", Json.str c.name),
+    ("cps", Json.arr (c.cps.map (fun p => Json.mkObj [("name", Json.str p.name), ("weight", jNat p.weight),
+        ("bins", Json.arr (p.bins.map jb).toArray)])).toArray),
+    ("crosses", Json.arr (c.crosses.map (fun p => Json.mkObj [("name", Json.str p.name), ("weight", jNat p.weight),
+        ("bins", Json.arr (p.bins.map jb).toArray)])).toArray)]
+
+open Pyvsc Pyvsc.Cg in
+def handleCg (op : String) (j : Json) : Except String Json := do
+  match op with
+  | "cg.run" => do
+      let ops ← getA j "ops"
+      let mut reg := Reg.empty
+      let mut outs : Array Json := #[]
+      for o in ops do
+        let k ← getS o "op"
+        if k == "new" then
+          match ← asShape (← o.getObjVal? "shape") with
+          | none => outs := outs.push (Json.str "error")
+          | some sh =>
+            reg := reg.newInst (← getS o "tname") (← getS o "iname") sh
+            let inst := reg.insts.getLast?
+            let tname := match inst with
+              | some i => (match reg.types[i.tidx]? with | some t => t.name | none => "?")
+              | none => "?"
+            outs := outs.push (Json.mkObj [("type", Json.str tname), ("tidx", jNat (match inst with | some i => i.tidx | none => 0))])
+        else if k == "sample" then
+          let inp ← (← getA o "inp").toList.mapM (fun s => do
+            let a ← s.getArr?
+            pure ((← a[0]!.getBool?), (← a[1]!.getInt?)))
+          let xiff ← (← getA o "xiff").toList.mapM (fun b => b.getBool?)
+          reg := reg.sample (← getN o "inst") inp xiff
+          outs := outs.push Json.null
+        else if k == "state" then
+          outs := outs.push (Json.mkObj [
+            ("types", Json.arr (reg.types.map (fun t => Json.mkObj [("name", Json.str t.name), ("st", jCgState t.shape t.st)])).toArray),
+            ("insts", Json.arr (reg.insts.map (fun i => Json.mkObj [("tidx", jNat i.tidx), ("st", jCgState i.shape i.st)])).toArray)])
+        else if k == "save" then
+          outs := outs.push (Json.arr (reg.save.map (fun t => Json.mkObj [("cg", jUCg t.cg), ("insts", Json.arr (t.insts.map jUCg).toArray)])).toArray)
+        else throw s!"unknown cg op {k}"
+      pure (Json.arr outs)
+  | _ => throw s!"unknown op {op}"
+
 def handle (j : Json) : Except String Json := do
   let op ← getS j "op"
   if op.startsWith "v." then handleValues op j
@@ -263,6 +336,7 @@ def handle (j : Json) : Except String Json := do
   else if op.startsWith "w." then handleWild op j
   else if op.startsWith "cp." then handleCp op j
   else if op.startsWith "s." then handleSpec op j
+  else if op.startsWith "cg." then handleCg op j
   else throw s!"unknown op {op}"
 
 partial def loop (hin : IO.FS.Stream) (hout : IO.FS.Stream) : IO Unit := do
